@@ -322,7 +322,9 @@ impl SubRule {
                 ParseElement::Matrix(mods, var) => if !self.context_match_matrix(mods, var, word, pos, item.position)? {
                     return Ok(false) 
                 },
-                ParseElement::Variable(..) => unimplemented!(),
+                ParseElement::Variable(vt, mods) => if !self.context_match_var(vt, mods, word, pos, forwards, item.position)? {
+                    return Ok(false)
+                },
                 _ => unreachable!()
             }
         }
@@ -382,7 +384,9 @@ impl SubRule {
                     ParseElement::Matrix(mods, var) => if !self.context_match_matrix(mods, var, word, pos, items[*index].position)? {
                         m = false; break;
                     },
-                    ParseElement::Variable(..) => unimplemented!(),
+                    ParseElement::Variable(vt, mods) => if !self.context_match_var(vt, mods, word, pos, true, items[*index].position)? {
+                        m = false; break;
+                    },
                     _ => unreachable!()
                 }
                 *index += 1;
